@@ -17,6 +17,8 @@ Families (parameters chosen so that the unchanged tree needs about a second for 
   slashes_in_string        a default value "//" in every one of n declarations  (same)
   long_line        one declaration with n arguments on a single line            (line-oriented pre-passes)
   long_word_default   defaults / initialisers with one long qualified name inside nested calls, braces, literals   (token-level regexes)
+  many_defaults_overloaded   an overloaded member with k defaulted parameters   (parse-time checks that enumerate call signatures)
+  odd_include_paths          legal but non-canonical #include headers after n path components   (regexes on include paths)
   op_nested        operator overloads whose operand/return type has template nesting depth d   (parse actions that walk types)
   tmpl_list_nested `template<T = {...}>` lists (class, method, static method, function) holding a type of depth d   (same)
   every_position_nested   the depth-d type as typedef, ctor/method/static/function argument and return, pair<>, property
@@ -113,6 +115,20 @@ def long_word_default(n):
             "};\nconst int kLimit = %s::limit(Inner(3));\n") % ((w,) * 7)
 
 
+def many_defaults_overloaded(k):
+    """one overloaded member (same name, same constness) one of whose overloads has k defaulted parameters — the text is O(k)"""
+    defs = ", ".join("int a%d = %d" % (i, i) for i in range(k))
+    return ("class Solver {\n  Solver();\n  Solver(%s);\n  void run(double tol) const;\n  void run(%s) const;\n"
+            "  static int Make(string name);\n  static int Make(%s);\n};\n") % (defs, defs, defs)
+
+
+def odd_include_paths(n):
+    """#include headers that are legal but not canonical (doubled slash, blank, backslash) after n path components"""
+    deep = "/".join("dir%d" % i for i in range(n))
+    return ("#include <%s//Matrix.h>\n#include <%s/My Header.h>\n#include <%s\\\\win\\\\Vector.h>\n"
+            "namespace a {\n#include <%s//inner.h>\nclass A { A(); };\n}\n") % (deep, deep, deep, deep)
+
+
 FAMILIES = [
     ("ns_deep", ns_deep, [10, 14, 18, 22], [10, 14, 18, 22, 26, 30]),
     ("ns_deep_leafcls", ns_deep_leafcls, [14, 18, 22, 26], [14, 18, 22, 26, 30, 34]),
@@ -120,6 +136,8 @@ FAMILIES = [
     ("slashes_in_string", slashes_in_string, [8, 16, 32], [8, 16, 32, 64, 128]),
     ("long_line", long_line, [50, 100, 200], [50, 100, 200, 400, 800]),
     ("long_word_default", long_word_default, [12, 16, 20, 24, 28, 32], [12, 16, 20, 24, 28, 32, 48, 64, 96]),
+    ("many_defaults_overloaded", many_defaults_overloaded, [6, 10, 14, 18, 22], [6, 10, 14, 18, 22, 26, 30]),
+    ("odd_include_paths", odd_include_paths, [2, 4, 6, 8, 10], [2, 4, 6, 8, 10, 14, 18]),
     ("op_nested", op_nested, [8, 12, 16, 20, 24], [8, 12, 16, 20, 24, 28, 32]),
     ("tmpl_list_nested", tmpl_list_nested, [8, 12, 16, 20, 24], [8, 12, 16, 20, 24, 28, 32]),
     ("every_position_nested", every_position_nested, [8, 12, 16, 20, 24], [8, 12, 16, 20, 24, 28, 32]),
